@@ -163,7 +163,7 @@ def handle (ctx : Ctx) (ln : String) : Option String :=
     match splitWs lhs with
     | ["resolve", sid] =>
       let i := sid.toNat!
-      let acc := accepted ctx.U i
+      let acc := (useType ctx.R i {}).1   -- = accepted ctx.U i (ctx.R = resolveAll ctx.U, computed once)
       let own := match ctx.R.getD i none with
         | some sd =>
           -- a struct without schema fields prints an empty field list: no trailing blank
